@@ -298,7 +298,7 @@ def configs(tier, seed):
         add(A, "sym", "zero", "jacobi", "func", 4, "0", 2, cost=30)
         add(A, "sym", "zero", None, "func", 1, "0", 1)
         if full:
-            add(A, "sym", "sym", None, "func", 4, "0", 3, cost=300)
+            # (n = 3 with b AND x0 symbolic over 3 updates needs > 30 min per matrix: outside, see OUTSIDE; the inductive cg_state step covers it)
             add(A, "sym", "zero", "dense3", "func", 3, "0", 3, cost=300)
             add(A, "sym", "zero", None, "linop", 3, "sym", 3, cost=300)
     for A in ("indef2", "semidef2"):
@@ -309,7 +309,6 @@ def configs(tier, seed):
             out.append({"id": "cg_state:%s:P=%s" % (A, P), "h": "cg_state", "A": A, "P": P, "max_paths": 200, "cost": 20})
     add("herm2", "sym", "zero", None, "func", 2, "0", 2, cost=50)
     if full:
-        add("herm2", "sym", "sym", None, "func", 3, "0", 2, cost=300)
         add("herm2ill", "sym", "zero", "jacobi", "func", 3, "0", 2, cost=300)
         add("herm2", "sym", "zero", None, "linop", 2, "sym", 2, cost=300)
     return out
